@@ -199,6 +199,11 @@ class DeclTable {
         os << ",\"copyassign\":" << B(M->isCopyAssignmentOperator());
         os << ",\"moveassign\":" << B(M->isMoveAssignmentOperator());
         os << ",\"lambdaop\":" << B(M->getParent()->isLambda());
+        if (M->getParent()->isLambda()) {
+          if (auto *PF = dyn_cast_or_null<FunctionDecl>(M->getParent()->getParentFunctionOrMethod()))
+            os << ",\"lambdaparent\":" << X.id(PF);
+          os << ",\"col\":" << X.colOf(M->getParent()->getLocation());
+        }
         if (auto *CD = dyn_cast<CXXConstructorDecl>(M)) {
           os << ",\"ctor\":true,\"copyctor\":" << B(CD->isCopyConstructor()) << ",\"movector\":"
              << B(CD->isMoveConstructor()) << ",\"defaultctor\":" << B(CD->isDefaultConstructor())
@@ -321,6 +326,26 @@ class Ser {
     OS << "{\"k\":\"VarDecl\",\"id\":" << X.id(VD) << ",\"n\":" << Q(VD->getNameAsString())
        << ",\"t\":" << X.type(VD->getType()) << ",\"l\":" << X.lineOf(VD->getLocation());
     if (VD->isStaticLocal()) OS << ",\"static\":true";
+    if (auto *DD = dyn_cast<DecompositionDecl>(VD)) {
+      // structured binding: each name is an expression over the hidden decomposed variable
+      OS << ",\"bind\":[";
+      bool fb = true;
+      for (auto *BD : DD->bindings()) {
+        if (!fb) OS << ",";
+        fb = false;
+        OS << "{\"id\":" << X.id(BD) << ",\"n\":" << Q(BD->getNameAsString()) << ",\"e\":";
+        if (BD->getBinding())
+          stmt(BD->getBinding());
+        else
+          OS << "null";
+        if (auto *HV = BD->getHoldingVar()) {
+          OS << ",\"hold\":";
+          varDecl(HV);
+        }
+        OS << "}";
+      }
+      OS << "]";
+    }
     if (VD->hasInit()) {
       OS << ",\"is\":" << (int)VD->getInitStyle();
       OS << ",\"ch\":[";
